@@ -602,3 +602,43 @@ def r10_smash_completeness(ctx):
 
 
 RULES += [r10_smash_completeness]
+
+
+def r11_summary_never_assigned(ctx):
+    ctx.rule("C14.r11", "array_smashing: a summary variable (mk_scalar_var) is never the SOURCE of an assignment in the base domain - it "
+             "stands for all the cells of its array, so `t := summary` makes every cell equal to t; values leave a summary only through "
+             "expand (a copy of its constraints that is not related to it)", floor=2)
+    n = 0
+    seen = set()
+    for fn in ctx.db.fns(AS):
+        if not (fn.get("cpk") or "").startswith(ASC):
+            continue
+        body = fn["body"]
+        d = local_decls(body)
+        summ = {dd["id"] for dd in d.values() if "i" in dd and any(is_call(c, name="mk_scalar_var") for c in walk(dd["i"]))}
+        if not summ:
+            continue
+        key = (fn["name"], fn.get("psig"))
+        if key in seen:
+            continue
+        seen.add(key)
+        for c in walk(body):
+            if not (c.get("k") == "call" and callee(c) and callee(c)["name"] in ("assign", "assign_bool_var", "weak_assign", "weak_assign_bool_var") and
+                    c.get("o") is not None and (is_field(obj(c), "m_base_dom") or (isinstance(strip(c["o"]), dict) and strip(c["o"]).get("k") == "ref")) and
+                    len(c.get("a", [])) >= 2):
+                continue
+            n += 1
+            srcs = {y.get("id") for y in walk(c["a"][1]) if y.get("k") == "ref" and y.get("rk") == "local"}
+            hit = srcs & summ
+            if hit:
+                nm = [dd["n"] for dd in d.values() if dd["id"] in hit][0]
+                ctx.bad("array_smashing::%s assigns from the summary variable `%s`: with a relational base domain the destination becomes "
+                        "EQUAL to the summary (all cells), e.g. B := A followed by y := A[20] gives y == B.smashed" % (fn["name"], nm), fn, c,
+                        sig="summary-is-assignment-source:%s" % fn["name"])
+            else:
+                ctx.ok("%s: assignment source is not a summary variable" % fn["name"], fn, c)
+    if n == 0:
+        ctx.fail("rule C14.r11: no base-domain assignment found in array_smashing")
+
+
+RULES += [r11_summary_never_assigned]
